@@ -295,3 +295,63 @@ func (h ZipHazard) AppliesTo(typ string) bool {
 	}
 	return false
 }
+
+// ManifestLineEndStyles are the ways a JAR manifest may end its lines (JAR File
+// Specification: newline is CR LF, LF or CR, chosen line by line): one style
+// throughout, or a different one in every section ("mixed": the sections take
+// CR, LF, CR LF in turn, starting with the main section).
+var ManifestLineEndStyles = []string{"lf", "crlf", "cr", "mixed"}
+
+// ManifestWrapPeriod lists the header line lengths from one byte below the
+// first place a manifest writer breaks a line (70) to the second (70+69 = 139):
+// one full period of the wrap, so that every later byte of the manifest, and
+// with it every original line end, takes every position relative to a break.
+func ManifestWrapPeriod() []int {
+	var out []int
+	for h := 69; h <= 139; h++ {
+		out = append(out, h)
+	}
+	return out
+}
+
+// StyledJar returns the canonical JAR whose manifest is written in the given
+// line-end style and carries one header line of h bytes: kind "main" = a main
+// attribute, kind "entry" = the Name of an added per-entry section (with a
+// non-digest attribute) for an added member of that name. Input lines are
+// folded at 70 bytes.
+func StyledJar(style, kind string, h int) ZArchive {
+	a := ZipBase("jar")
+	eolOf := func(section int) string {
+		switch style {
+		case "lf":
+			return "\n"
+		case "crlf":
+			return "\r\n"
+		case "cr":
+			return "\r"
+		}
+		return []string{"\r", "\n", "\r\n"}[section%3]
+	}
+	var sb strings.Builder
+	section := func(i int, lines ...string) {
+		eol := eolOf(i)
+		for _, l := range lines {
+			sb.WriteString(FoldManifestLine(l, eol))
+		}
+		sb.WriteString(eol)
+	}
+	main := []string{"Manifest-Version: 1.0", "Created-By: verif", "Bundle-SymbolicName: org.example", "Export-Package: " + strings.Repeat("org.example.pkg,", 5)}
+	if kind == "main" {
+		key := fmt.Sprintf("X-Line-Of-%d-Bytes: ", h)
+		main = append(main, key+positional(h-len(key)))
+	}
+	section(0, main...)
+	section(1, "Name: hello.txt", "Content-Type: text/plain")
+	if kind == "entry" {
+		name := "d/" + positional(h-len("Name: ")-2)
+		addMember(&a, ZMember{Name: name, Data: []byte("member with a long name")})
+		section(2, "Name: "+name, "Content-Type: text/plain")
+	}
+	a.Members[manifestIndex(&a)].Data = []byte(sb.String())
+	return a
+}
